@@ -1459,3 +1459,85 @@ package decimal128
 //@ loop 2: invariant exp >= 0 && exp <= 6200 && ((rs(V, exp + 6176) == u128(sig) && u128(sig) <= M) || (u128(sig) <= rs(V, 6176) && rs(V, 6176) < u128(sig) + 1 && exp == 0))
 //@ loop 2: decreases exp
 //@ props C10 C19 C20
+
+// ---------------------------------------------------------------------------
+// Canonical (C19): value and sign preserved, NaN payload and Inf garbage bits
+// stripped, zeros reduced to the sign bit, finite non-zero values in the normal
+// form NF(c, e): e == 6176, or e > 6176 with 10c > M, or e < 6176 with 10 not dividing c.
+// ---------------------------------------------------------------------------
+
+//@ func Decimal.Canonical
+//@ uses rssteps=1 rsmono=0,1
+//@ returns (r)
+//@ logical V real
+//@ requires !special(d) && coef(d) != 0 ==> V > 0 && rs(V, bexp(d)) == coef(d)
+//@ ensures isnan(d) ==> isnan(r) && !sign(r) && lo(r) == 0 && hi(r) == 0x7c00000000000000
+//@ ensures isinf(d) ==> isinf(r) && sign(r) == sign(d) && lo(r) == 0 && hi(r) == ite(sign(d), 0xf800000000000000, 0x7800000000000000)
+//@ ensures !special(d) && coef(d) == 0 ==> lo(r) == 0 && hi(r) == ite(sign(d), 0x8000000000000000, 0)
+//@ ensures !special(d) && coef(d) != 0 ==> !special(r) && sign(r) == sign(d) && rs(V, bexp(r)) == coef(r) && coef(r) != 0 && NF(coef(r), bexp(r))
+//@ loop 1: invariant rs(V, exp) == u128(sig) && u128(sig) <= M && u128(sig) != 0 && exp >= 0 && exp <= 12287
+//@ loop 1: decreases exp
+//@ loop 2: invariant rs(V, exp) == u128(sig) && u128(sig) <= M && u128(sig) != 0 && exp >= 0 && exp <= 12287 && (exp > 6176 ==> 10 * u128(sig) > M)
+//@ loop 2: decreases 6176 - exp
+//@ props C19 C20
+
+// The normal form is unique: two normal-form representations of the same value are identical.
+//@ lemma nf_unique
+//@ forall v real, c1 int, e1 int, c2 int, e2 int
+//@ hyp v > 0 && 0 < c1 && c1 <= M && 0 < c2 && c2 <= M && 0 <= e1 && e1 <= 12287 && 0 <= e2 && e2 <= 12287
+//@ hyp rs(v, e1) == c1 && rs(v, e2) == c2 && NF(c1, e1) && NF(c2, e2)
+//@ holds c1 == c2 && e1 == e2
+//@ props C19
+
+// The integer comparison cmpmag used in Equal's contract is the order of the exact real values.
+//@ lemma cmpmag_is_real_order
+//@ forall vd real, vo real, cd int, ed int, co int, eo int
+//@ hyp vd >= 0 && vo >= 0 && 0 <= cd && cd <= M && 0 <= co && co <= M && 0 <= ed && ed <= 12287 && 0 <= eo && eo <= 12287
+//@ hyp rs(vd, ed) == cd && rs(vo, eo) == co && rs(vd, eo) >= 0 && rs(vo, ed) >= 0
+//@ holds (cmpmag(cd, ed, co, eo) == 0 - 1 <==> vd < vo) && (cmpmag(cd, ed, co, eo) == 0 <==> vd == vo) && (cmpmag(cd, ed, co, eo) == 1 <==> vd > vo)
+//@ props C04 C19
+
+// Determinacy of correct rounding (C19): two members of the format that the same mode selects for the
+// same exact value denote the same value, whatever exponents they are written with (one lemma per mode).
+//@ lemma rnd_determinate_0
+//@ forall v real, w real, neg bool, c1 int, e1 int, c2 int, e2 int
+//@ hyp v > 0 && w >= 0 && 0 <= e1 && e1 <= e2 && e2 <= 32000
+//@ hyp RndOK(0, neg, rs(v, e1), c1, e1) && RndOK(0, neg, rs(v, e2), c2, e2) && rs(w, e1) == c1
+//@ holds rs(w, e2) == c2
+//@ props C19
+
+//@ lemma rnd_determinate_1
+//@ forall v real, w real, neg bool, c1 int, e1 int, c2 int, e2 int
+//@ hyp v > 0 && w >= 0 && 0 <= e1 && e1 <= e2 && e2 <= 32000
+//@ hyp RndOK(1, neg, rs(v, e1), c1, e1) && RndOK(1, neg, rs(v, e2), c2, e2) && rs(w, e1) == c1
+//@ holds rs(w, e2) == c2
+//@ props C19
+
+//@ lemma rnd_determinate_2
+//@ forall v real, w real, neg bool, c1 int, e1 int, c2 int, e2 int
+//@ hyp v > 0 && w >= 0 && 0 <= e1 && e1 <= e2 && e2 <= 32000
+//@ hyp RndOK(2, neg, rs(v, e1), c1, e1) && RndOK(2, neg, rs(v, e2), c2, e2) && rs(w, e1) == c1
+//@ holds rs(w, e2) == c2
+//@ props C19
+
+//@ lemma rnd_determinate_3
+//@ forall v real, w real, neg bool, c1 int, e1 int, c2 int, e2 int
+//@ hyp v > 0 && w >= 0 && 0 <= e1 && e1 <= e2 && e2 <= 32000
+//@ hyp RndOK(3, neg, rs(v, e1), c1, e1) && RndOK(3, neg, rs(v, e2), c2, e2) && rs(w, e1) == c1
+//@ holds rs(w, e2) == c2
+//@ props C19
+
+//@ lemma rnd_determinate_4
+//@ forall v real, w real, neg bool, c1 int, e1 int, c2 int, e2 int
+//@ hyp v > 0 && w >= 0 && 0 <= e1 && e1 <= e2 && e2 <= 32000
+//@ hyp RndOK(4, neg, rs(v, e1), c1, e1) && RndOK(4, neg, rs(v, e2), c2, e2) && rs(w, e1) == c1
+//@ holds rs(w, e2) == c2
+//@ props C19
+
+//@ lemma rnd_determinate_5
+//@ forall v real, w real, neg bool, c1 int, e1 int, c2 int, e2 int
+//@ hyp v > 0 && w >= 0 && 0 <= e1 && e1 <= e2 && e2 <= 32000
+//@ hyp RndOK(5, neg, rs(v, e1), c1, e1) && RndOK(5, neg, rs(v, e2), c2, e2) && rs(w, e1) == c1
+//@ holds rs(w, e2) == c2
+//@ props C19
+
